@@ -117,6 +117,9 @@ def run(ctx):
                            min_records=1000)
         f_g1 = pool.submit(hl.mc_export, ctx, "Graph", "Graph_export.cfg", must_cover=("GetScale", "Scale"),
                            min_records=3000)
+        # columns given as one list object (symmetric errors) and a twin graph made from the same lists
+        f_g4 = pool.submit(hl.mc_export, ctx, "Graph", "Graph_share_export.cfg", must_cover=("GetScale", "Scale"),
+                           min_records=3000)
         # (random graph histories only in the thorough tier: Graph_seq_export has every history of length 4)
         f_g2 = pool.submit(hl.export_generate, ctx, "Graph", "Graph_hist_export.cfg", num=4000, depth=6,
                            min_records=400) if ctx.thorough else None
@@ -140,7 +143,8 @@ def run(ctx):
                 guarded(report, what, rec, h12.replay_histops, ctx, rec, k, report, extra)
                 ctx.case([what, rec], nontrivial=True)
             ctx.sample({"spec_" + what: hrecs[len(hrecs) // 2]})
-        for fut, what in ((f_g1, "graph_op"), (f_g2, "graph_history"), (f_g3, "graph_scale_sequence")):
+        for fut, what in ((f_g1, "graph_op"), (f_g2, "graph_history"), (f_g3, "graph_scale_sequence"),
+                          (f_g4, "graph_shared_columns")):
             if fut is None:
                 continue
             grecs = fut.result()
